@@ -615,6 +615,11 @@ def generate(prop, seed, tier):
     nruns = r.choice([1, 1, 1, 2, 3] + ([4, 5] if thorough else []))
     sets = [[_w(r, [(r.randint(1, 8), 3), (r.randint(9, 30), 3), (r.randint(31, 60), 1)]) for _ in range(2)] for _ in range(nruns)]
     rule = _w(r, [(r.randint(1, 4), 4), (r.randint(5, 12), 3), (r.randint(13, 70), 1), (r.choice([1e-5, 5e-5]), 0.7), ([[0, 3], [4, 7]], 0.7)])
+    bg = rng.stream(seed, 'bigsets')
+    if bg.random() < 0.04:
+        # a few batches of several hundred rows each: sums kept in a narrow type, block-wise kernels, thresholds on the batch size
+        sets = [[bg.randint(200, 1500) for _ in range(2)] for _ in range(nruns)]
+        rule = bg.choice([128, 256, 500, 512, 1000, 1024, 2000])
     frame = r.choice([None, None, ['slice', 0, max(1, m - 1), None], ['list', [m - 1, 0]], ['range', 0, m, 2]])
     if m >= 3 and rng.stream(seed, 'frame2').random() < 0.12:
         frame = ['list', rng.stream(seed, 'frame3').choice([[2, 0, 1], [1, 2, 0], [m - 1, 0, 1, 0]])]
@@ -687,7 +692,7 @@ def make_sets(scn):
             amp = scn['wide16']          # 12-bit / full-scale 16-bit acquisitions: sums of squares beyond 2^31 within a few traces
         p = []
         for n in pair:
-            raw = g.integers(0, 1 << 16, (64, 8))
+            raw = g.integers(0, 1 << 16, (max(64, n), 8))
             s = raw[:n, :scn['m']] % (amp + 1)
             if td.kind != 'u':
                 s = s - amp // 2
@@ -746,10 +751,14 @@ def welch_reference(A, B, precision):
             continue
         den = float(den2) ** 0.5
         t = float(m1 - m2) / den
-        dv1 = 8 * eps * float(q1 / n1 + m1 * m1)
-        dv2 = 8 * eps * float(q2 / n2 + m2 * m2)
+        # a sum of n terms accumulated one after the other in the requested precision is off by at most ~n * eps * sum|x| (first order): the
+        # constants grow with the number of rows (they were fixed at 8 / 4 while sets had at most 60 rows, never tighter than that now)
+        a1, a2 = float(sum(abs(x) for x in a) / n1), float(sum(abs(x) for x in b) / n2)
+        g1, g2 = max(8, n1), max(8, n2)
+        dv1 = g1 * eps * (float(q1 / n1) + 2 * a1 * a1)
+        dv2 = g2 * eps * (float(q2 / n2) + 2 * a2 * a2)
         dden2 = dv1 / n1 + dv2 / n2 + 4 * eps * float(den2)
-        dnum = 4 * eps * float(abs(m1) + abs(m2))
+        dnum = eps * (max(4, n1) * a1 + max(4, n2) * a2)
         if dden2 >= 0.25 * float(den2):
             continue
         ref[j] = t
